@@ -37,10 +37,11 @@ def _env_for(side: Side) -> Env:
     return e
 
 
-def _paths(eng: SiblingEngine, fi: FuncInfo, items: list, env: Optional[Env] = None):
+def _paths(eng: SiblingEngine, fi: FuncInfo, items: list, env: Optional[Env] = None, returns: bool = False):
     side = Side(fi, label=fi.name)
     side.call_adapters = eng._adapters([], 'spec')
     pe = PathExec(side)
+    pe.returns = returns
     return list(pe.paths(items, env if env is not None else _env_for(side), [], []))
 
 
@@ -819,7 +820,7 @@ def _discrete_framing(eng, fi, post, ret, roles) -> List[Ob]:
     fn = _fn(fi)
     params = [a.arg for a in fi.node.args.args]
     t_start, t_end = params[2], params[3]
-    paths = _paths(eng, fi, [it for it in post if it[0] != 'return'])
+    paths = _paths(eng, fi, [it for it in post if it[0] != 'return'], returns=True)
     st, va, mp = ret[0], ret[1], ret[2]
     for n_path, (env, stores, conds) in enumerate(paths):
         # trimming: every returned array is the prefix [0, counter+2) of the array the scan filled - framing entry 0, the
@@ -828,7 +829,7 @@ def _discrete_framing(eng, fi, post, ret, roles) -> List[Ob]:
              f"event recorded by the scan, the end entry (path {n_path})")
         uppers = []
         good = True
-        ret_item = next((it for it in post if it[0] == 'return'), None)
+        ret_item = env.returned or next((it for it in post if it[0] == 'return'), None)
         ret_elts = list(ret_item[1].elts) if ret_item is not None and isinstance(ret_item[1], ast.Tuple) else []
         finals = {}
         for k_, r in enumerate(ret[:3]):
@@ -1035,10 +1036,14 @@ def written_extent(eng: SiblingEngine, fi: FuncInfo, rule: str = 'R18.3', length
     obs.append(ok(rule, t, fi.loc(loop[-1]), construct=f"{fn}::extent::invariant",
                   detail=f"hi = {counter} + {{{', '.join(f'{a}: {C.show(o)}' for a, o in off.items())}}}; {len(lp)} loop paths"))
     epi_items = [it for it in post if it[0] != 'return']
-    ret_item = next((it for it in post if it[0] == 'return'), None)
-    if ret_item is None:
+    ret_top = next((it for it in post if it[0] == 'return'), None)
+    pe.returns = True
+    epi_paths = list(pe.paths(epi_items, env0(), [], []))
+    pe.returns = False
+    if any(env.returned is None for env, _s, _c in epi_paths) and ret_top is None:
         return obs + [inconclusive(rule, f"{fi.name}: return statement after the loop", fi.loc(), construct=fn)]
-    for n_path, (env, stores, conds) in enumerate(pe.paths(epi_items, env0(), [], [])):
+    for n_path, (env, stores, conds) in enumerate(epi_paths):
+        ret_item = env.returned or ret_top
         W = {a: (lo[a], C.add(C.atom(('n', counter)), off[a])) for a in arrays}
         pb = apply(stores, W, f'epilogue path {n_path}')
         t2 = f"{fi.name} ({fi.path}): every returned slice lies inside the written cells (epilogue path {n_path}: {_cond_txt(conds)})"
